@@ -106,7 +106,7 @@ func (db *DB) queryCluster(ctx context.Context, sqlString string, isSubQuery boo
 	fail := func(partition int, err error) {
 		finalMx.Lock()
 		defer finalMx.Unlock()
-		if _finalErr != nil {
+		if _finalErr == nil {
 			_finalErr = err
 		}
 		missingPartitions[partition] = true
